@@ -84,6 +84,7 @@ func parseSexps(src string) ([]*sexp, error) {
 
 type specForm struct {
 	needs   []string // `;@ needs a b`: ship this axiom only if ALL of these symbols occur in the VC
+	defOf   []string // `;@ defines f`: this axiom is the definition of f; dropped in functions whose contract says `hide spec.f`
 	text    string
 	defines []string
 	uses    map[string]bool
@@ -127,14 +128,19 @@ func LoadPrelude(files []string) (*SpecPrelude, error) {
 		}
 		// `;@ needs sym...` annotations apply to the next top-level form (matched by order of appearance)
 		needsFor := map[int][]string{}
+		defsFor := map[int][]string{}
 		{
 			idx := 0
 			depth := 0
-			var pending []string
+			var pending, pendingDef []string
 			for _, line := range strings.Split(string(data), "\n") {
 				t := strings.TrimSpace(line)
 				if strings.HasPrefix(t, ";@ needs ") && depth == 0 {
 					pending = strings.Fields(strings.TrimPrefix(t, ";@ needs "))
+					continue
+				}
+				if strings.HasPrefix(t, ";@ defines ") && depth == 0 {
+					pendingDef = strings.Fields(strings.TrimPrefix(t, ";@ defines "))
 					continue
 				}
 				code := line
@@ -147,6 +153,10 @@ func LoadPrelude(files []string) (*SpecPrelude, error) {
 							if pending != nil {
 								needsFor[idx] = pending
 								pending = nil
+							}
+							if pendingDef != nil {
+								defsFor[idx] = pendingDef
+								pendingDef = nil
 							}
 						}
 						depth++
@@ -163,7 +173,7 @@ func LoadPrelude(files []string) (*SpecPrelude, error) {
 			if !fm.isList || len(fm.list) == 0 {
 				continue
 			}
-			sf := &specForm{text: fm.String(), uses: map[string]bool{}, file: f, needs: needsFor[fi]}
+			sf := &specForm{text: fm.String(), uses: map[string]bool{}, file: f, needs: needsFor[fi], defOf: defsFor[fi]}
 			fm.atoms(sf.uses)
 			head := fm.list[0].atom
 			switch head {
@@ -207,7 +217,7 @@ func LoadPrelude(files []string) (*SpecPrelude, error) {
 }
 
 // Select the forms needed for a set of used symbols (transitively), in file order.
-func (sp *SpecPrelude) closure(used map[string]bool) []*specForm {
+func (sp *SpecPrelude) closure(used map[string]bool, hide map[string]bool) []*specForm {
 	need := map[string]bool{}
 	for k := range used {
 		need[k] = true
@@ -220,6 +230,15 @@ func (sp *SpecPrelude) closure(used map[string]bool) []*specForm {
 				continue
 			}
 			take := false
+			hidden := false
+			for _, d := range f.defOf {
+				if hide[d] {
+					hidden = true
+				}
+			}
+			if hidden {
+				continue
+			}
 			if f.isAxiom && len(f.needs) > 0 {
 				take = true
 				for _, n := range f.needs {
